@@ -249,28 +249,43 @@ static Bounded_Integer_Type_Width width_of(unsigned w) {
   switch (w) { case 8: return BITS_8; case 16: return BITS_16; case 32: return BITS_32; case 64: return BITS_64; default: return BITS_128; }
 }
 
+template <typename D> static void grid_info(const D&, const Case&, const std::string&) {}
+template <> void grid_info<Grid>(const Grid& g, const Case& c, const std::string& id) {
+  // PPL's own view of the frequency/value of every wrapped variable: used by the check only to
+  // classify a failure that the Lean judge has already established, never to judge
+  if (c.kind != 'W') return;
+  OS o; o << "ginfo " << id;
+  for (size_t i = 0; i < c.vars.size(); ++i) {
+    Coefficient fn, fd, vn, vd;
+    bool ok = false;
+    try { ok = g.frequency(Linear_Expression(Variable(c.vars[i])), fn, fd, vn, vd); } catch (...) { ok = false; }
+    o << " " << c.vars[i] << " " << (ok ? 1 : 0) << " " << fn << " " << fd << " " << vn << " " << vd;
+  }
+  J.line(o.str());
+}
+
 template <typename D> static void run_case(const Case& c, const std::string& id) {
   OS o;
   o << (c.kind == 'W' ? "wrap " : c.kind == 'D' ? "drop " : "cip ") << id << " " << describe(c) << " | A";
   try {
     D x = Ops<D>::build_elem(c.arg, c.n);
-    { D y(x); Ops<D>::put(o, y, c.n); }
+    { D y(x); Ops<D>::put(o, y, c.n); grid_info<D>(y, c, id); }
     o << " | R";
     Variables_Set vs;
     for (size_t i = 0; i < c.vars.size(); ++i) vs.insert(Variable(c.vars[i]));
     if (c.kind == 'W') {
-      J.line("begin " + id);
+      J.line("begin " + id + " " + describe(c));
       x.wrap_assign(vs, width_of(c.w), c.r == 'u' ? UNSIGNED : SIGNED_2_COMPLEMENT,
                     c.o == 'w' ? OVERFLOW_WRAPS : c.o == 'u' ? OVERFLOW_UNDEFINED : OVERFLOW_IMPOSSIBLE,
                     c.hasguard ? &c.guard : 0, c.thr, c.ind);
       Ops<D>::put(o, x, c.n);
     } else if (c.kind == 'D') {
-      J.line("begin " + id);
+      J.line("begin " + id + " " + describe(c));
       Complexity_Class cc = c.cc == 'P' ? POLYNOMIAL_COMPLEXITY : c.cc == 'S' ? SIMPLEX_COMPLEXITY : ANY_COMPLEXITY;
       if (c.hasvars) x.drop_some_non_integer_points(vs, cc); else x.drop_some_non_integer_points(cc);
       Ops<D>::put(o, x, c.n);
     } else {
-      J.line("begin " + id);
+      J.line("begin " + id + " " + describe(c));
       o << " " << (x.contains_integer_point() ? 1 : 0);
     }
   } catch (...) {
@@ -517,8 +532,11 @@ static const char* PLANTED[] = {
   "W G 1 1 0 8 s w 0 16 0 1 c 0 1 0 -200 1",                            // x = 200, signed
   "W G 1 1 0 8 u w 0 16 0 1 c 0 1 256 -1 3",                            // 3x = 1 mod 256
   "W G 1 1 0 8 s w 0 16 0 1 c 0 1 256 -128 1",                          // x = 128 mod 256, signed
+  "W G 2 1 1 8 u w 0 6 0 1 c 0 1 0 2 1 1",                              // A + B = -2, B wrapped (no frequency)
+  "Q N 1 1 c 2 > -1 4 > 3 -4 0",                                        // 1/4 < A < 3/4
+  "W ZB 1 1 0 8 u u 0 16 0 1 c 2 >= -250 1 >= 256 -1 0",                // [250,256], overflow undefined
 };
-static const int NPLANTED = 9;
+static const int NPLANTED = 12;
 
 static void batch(uint64_t seed, long b, long cases) {
   Rng r(seed * 1000003ull + (uint64_t)b * 7919ull + 17);
